@@ -346,7 +346,12 @@ class Session:
 
         self.compression_method = record.binary[index + 2]
 
-        extensions_length = int.from_bytes(record.binary[index + 3: index + 5], 'big')
+        # the extension block is optional and must not be read beyond the ServerHello message:
+        # further handshake messages may follow in the same record
+        hello_end = 4 + int.from_bytes(record.binary[1:4], 'big')
+        extensions_length = 0
+        if index + 5 <= hello_end:
+            extensions_length = int.from_bytes(record.binary[index + 3: index + 5], 'big')
         extensions_bin = record.binary[index + 5: index + 5 + extensions_length]
 
         self.extensions = {}
